@@ -58,3 +58,7 @@ add("C06", "other",
     "Bounded SMT over a fully symbolic candidate circuit: the clauses of the real encoder (after the real fix_gate/forbid_wire calls) are bridged to z3 under the real variable names and two validity queries per configuration show that the CNF's models are exactly the circuits admissible under a reference specification; find_circuit (plain and time-limited) is compared with z3's verdict and the decoder is driven with several distinct models.",
     "Trusted: CPython, z3, the reference specification in checks/c06.py, SAT stub (z3). Bounded: n<=3, <=2 outputs, r<=4, named bases + 7 custom, don't-cares exhaustive for n<=2/1 output, constraints <=2 per configuration. circuit_db shortcut excluded by the property.",
     "bounded SMT over symbolic netlist: CNF of real encoder == reference specification (A/B validity queries)", "DESIGN.md §3 C06")
+add("C04", "translation_validation",
+    "Translation validation under environment stubs (cut enumerator with admissible variations, z3-backed SAT solver): for each (circuit, parameter setting, cut family, hash seed) the real minimize_subcircuits is run with validation on and z3 decides equivalence of argument and result over all inputs; interface, size and well-formedness predicates per instance; internal errors are alarmed only when z3 shows no two gates are functionally equivalent.",
+    "Trusted: CPython, z3, proxies, the two stubs (documented contracts). Bounded: binary circuits over the 11 supported types, <=4 inputs, <=9 base gates; 4 cut families; hash seeds 0..3 in thorough.",
+    "translation validation with z3 equivalence; environment stubs for mockturtle and PySAT", "DESIGN.md §3 C04")
